@@ -299,6 +299,10 @@ class Report(object):
             print('[%s] %s' % (self.prop, n))
         for l in lines:
             print(l)
+        only_vacuity = herr and all(str(h.get('message', '')).startswith('vacuity:') for h in herr)
+        if new and only_vacuity:
+            # a violation usually explains why a witness was not reached: report the violation
+            return 1
         if herr:
             for h in herr[:3]:
                 msg = str(h.get('message', ''))
